@@ -7,7 +7,7 @@ from ..tlc import MachineryError, SPECS, run_tlc, write_cfg
 from ..realise import interp_real as IR
 
 SPEC = os.path.join(SPECS, "interp", "MC_ContentInterp.tla")
-ALLDEVS = ["TcNotTrailing", "FormNoGsInherit", "CsNoColorReset", "LoneMoveShape"]
+ALLDEVS = ["TcNotTrailing", "FormNoGsInherit", "CsNoColorReset", "LoneMoveShape", "QKeepsColorSpace"]
 ACTIONS = ["APushOperand", "AGState", "ATextObj", "ATextState", "ATextPos", "AShow", "AColor", "APath", "APaint", "ADo"]
 PAINT = {"S", "s", "f", "F", "f*", "B", "B*", "b", "b*", "n"}
 
